@@ -131,4 +131,13 @@ MORE['C20'] = dict(
           "nodediff probes crafted reinit messages against existing rounds. Outside the quantifier and not handled by the tool: two key-generation rounds interleaved in one dump (GenerateReDKGMessage takes the last id and both participant lists)."),
     ref='7 C20', note=NODE_NOTE + ' ' + AIR_NOTE)
 
+MORE['C04'] = dict(
+    technique='Lean 4 theorems about a symbolic (Dolev-Yao) model of the terms a machine exports (attacker derivability by induction; no secret of an honest machine is derivable whoever is corrupted; a deal share needs its addressee) + the finding about round-independent dealer polynomials + search of every output and database file of real ceremonies for every secret (secretdiff)',
+    text=("Proof, partial. lean/Dc4bcVerif/Props/C04.lean over Model/Sym.lean: secrecy (guardedness of the exported terms is preserved by every attacker operation: projections, decryption with the keys of corrupted participants, reading signed messages, building terms), "
+          "exported_guarded and machine_secrets_safe (for every n, t, number of signed messages and every set of corrupted participants: the long-term key, seed, polynomial coefficients and final share of an honest machine are not derivable from everything it exports), "
+          "deal_share_needs_addressee, rounds_share_dealer_secret (KNOWN-FINDING C04-rounds-share-dealer-polynomial: the dealer polynomial does not depend on the round). The model is symbolic: it says where secrets are placed, not how strong ECIES, Schnorr, BLS or scrypt+AES-GCM are; "
+          "that the Go code exports exactly the modelled terms, that the database holds key and shares only encrypted and that a wrong password opens nothing are NOT theorems: they are checked on real machines by secretdiff (every result file, board message and database file searched "
+          "for every secret in ten encodings incl. nested base64; every deal tried with every key; wrong passwords after a correct unlock in the same process; all pairs of rounds compared)."),
+    ref='7 C04', note=AIR_NOTE + ' No model stream for this property: the correspondence is the secret scan.')
+
 NOT_APPLICABLE = {}
